@@ -72,7 +72,12 @@ var errPayload = errors.New("verif: payload reader failed")
 func (g *gateReader) Token() (xml.Token, error) {
 	if g.n == 1 {
 		g.ctl.Gate(g.label, "payload")
-		if <-g.fail {
+		fail := true // released by Kill without a decision: give up
+		select {
+		case fail = <-g.fail:
+		default:
+		}
+		if fail {
 			g.n = len(g.toks)
 			return nil, errPayload
 		}
@@ -505,7 +510,7 @@ func (sr *sessRun) finish() {
 		}
 	}
 	sr.rs.In.Close()
-	sr.rs.S.Close()
+	common.WithTimeout(200*time.Millisecond, func() { sr.rs.S.Close() })
 }
 
 // runSess executes one schedule and records line, case and oracle verdicts.
